@@ -55,3 +55,53 @@ fn vf_cli_args_verbatim() {
     } } }
     println!("VF-SUMMARY test=cli_args_verbatim checked={} nontrivial={} bad={}", checked, checked, bad);
 }
+
+// C05 / C06: the flags of `run` mean what they say on the real command line: an undefined (command, target) pair fails the run only
+// under --fail-on-undefined (and then everything later is skipped); --no-base-argmaps has nothing to do with it; --deps adds the
+// dependencies of the named targets, and only --deps does.
+#[test]
+fn vf_cli_run_flags() {
+    let td = tempfile::tempdir().unwrap();
+    let root = td.path();
+    for t in ["lib", "app"] {
+        let p = root.join(t).join("monorail/cmd/build.sh");
+        std::fs::create_dir_all(p.parent().unwrap()).unwrap();
+        std::fs::write(&p, "#!/bin/sh\nexit 0\n").unwrap();
+        let mut perm = std::fs::metadata(&p).unwrap().permissions(); perm.set_mode(0o755); std::fs::set_permissions(&p, perm).unwrap();
+    }
+    let (lp, kp) = (free_port(), free_port());
+    let cfg = root.join("Monorail.json");
+    std::fs::write(&cfg, format!("{{\"targets\":[{{\"path\":\"lib\"}},{{\"path\":\"app\",\"uses\":[\"lib\"]}}],\"server\":{{\"log\":{{\"port\":{}}},\"lock\":{{\"port\":{}}}}}}}", lp, if kp == lp { kp + 1 } else { kp })).unwrap();
+    let (mut checked, mut bad) = (0u64, 0u64);
+    // (extra flags, commands, targets, expect failed, expected status of (build, app), expected set of targets under `build`)
+    let cases: Vec<(Vec<&str>, Vec<&str>, Vec<&str>, bool, &str, Vec<&str>)> = vec![
+        (vec![], vec!["nosuch", "build"], vec!["app"], false, "success", vec!["app"]),
+        (vec!["--no-base-argmaps"], vec!["nosuch", "build"], vec!["app"], false, "success", vec!["app"]),
+        (vec!["--fail-on-undefined"], vec!["nosuch", "build"], vec!["app"], true, "skipped", vec!["app"]),
+        (vec!["--fail-on-undefined", "--no-base-argmaps"], vec!["nosuch", "build"], vec!["app"], true, "skipped", vec!["app"]),
+        (vec!["--deps"], vec!["build"], vec!["app"], false, "success", vec!["app", "lib"]),
+        (vec![], vec!["build"], vec!["app"], false, "success", vec!["app"]),
+    ];
+    for (flags, cmds, targets, want_failed, want_status, want_targets) in cases {
+        checked += 1;
+        let mut a: Vec<String> = vec!["-f".into(), cfg.display().to_string(), "run".into(), "-c".into()];
+        a.extend(cmds.iter().map(|s| s.to_string())); a.push("-t".into()); a.extend(targets.iter().map(|s| s.to_string())); a.extend(flags.iter().map(|s| s.to_string()));
+        let o = Command::new(BIN).current_dir(root).args(&a).output().unwrap();
+        let what = format!("`monorail run -c {} -t {} {}`", cmds.join(" "), targets.join(" "), flags.join(" "));
+        let v: Option<serde_json::Value> = serde_json::from_slice(&o.stdout).ok();
+        let Some(v) = v else { bad += 1; println!("VF-FAIL {} :: no result document printed (exit {:?}) (C05) (C06)", what, o.status.code()); continue; };
+        let failed = v["failed"].as_bool().unwrap_or(true);
+        let build = v["results"].as_array().and_then(|r| r.iter().find(|c| c["command"] == "build")).cloned().unwrap_or(serde_json::Value::Null);
+        let mut seen: Vec<String> = vec![]; let mut app_status = String::new();
+        for g in build["target_groups"].as_array().cloned().unwrap_or_default() { for (t, r) in g.as_object().cloned().unwrap_or_default() { if t == "app" { app_status = r["status"].as_str().unwrap_or("").to_string(); } seen.push(t); } }
+        seen.sort();
+        let want_t: Vec<String> = want_targets.iter().map(|s| s.to_string()).collect();
+        let exit_ok = o.status.code() == Some(if want_failed { 1 } else { 0 });
+        if failed != want_failed || !exit_ok || app_status != want_status || seen != want_t {
+            bad += 1;
+            println!("VF-FAIL {} :: failed={} exit={:?}, `build` covers {:?} with app `{}`; expected failed={}, `build` over {:?} with app `{}` (an undefined pair fails the run only under --fail-on-undefined; --deps and only --deps adds dependencies) (C05) (C06)",
+                what, failed, o.status.code(), seen, app_status, want_failed, want_t, want_status);
+        }
+    }
+    println!("VF-SUMMARY test=cli_run_flags checked={} nontrivial={} bad={}", checked, checked, bad);
+}
